@@ -38,19 +38,62 @@ func registerReplay[C any](check string, oracle func(*C) *Failure) {
 	}
 }
 
-// CheckProp runs one rapid property: draw produces a case, oracle judges it.
-func CheckProp[C any](t *testing.T, prop, check, scope string, draw func(rt *rapid.T) *C, oracle func(*C) *Failure) {
-	t.Helper()
-	rapid.Check(t, func(rt *rapid.T) {
+// RProp is one rapid property (a case generator and its oracle) under a name. The same closure is driven by
+// rapid.Check (random search with shrinking) in the quick/thorough tiers and by the native coverage-guided fuzzing
+// engine through rapid.MakeFuzz in the thorough tier (FuzzRapid): there the fuzzer's bytes are the generator's
+// choice sequence, so coverage feedback from the library under test steers the structured generator.
+type RProp struct {
+	Prop, Check, Scope string
+	Run                func(rt *rapid.T)
+}
+
+// RapidProps: property id -> all of its rapid properties over all types (filled by init() of each cNN file).
+var RapidProps = map[string]func() []RProp{}
+
+func FuzzMode() bool { return os.Getenv("VERIF_FUZZ") != "" }
+
+func MkProp[C any](prop, check, scope string, draw func(rt *rapid.T) *C, oracle func(*C) *Failure) RProp {
+	return RProp{Prop: prop, Check: check, Scope: scope, Run: func(rt *rapid.T) {
 		c := draw(rt)
 		if c == nil {
 			return
 		}
 		if f := oracle(c); f != nil {
-			Col.Violation(prop, check, scope, f.Signature, f.Msg, "rapid", c)
+			by := "rapid"
+			if FuzzMode() {
+				by = "gofuzz+rapid"
+				writeFuzzViolation(prop, check, scope, f, c)
+			}
+			Col.Violation(prop, check, scope, f.Signature, f.Msg, by, c)
 			rt.Fatalf("%s: %s", f.Signature, f.Msg)
 		}
-	})
+	}}
+}
+
+// writeFuzzViolation stores the failing case at once (a fuzz worker may be killed before it can flush); the
+// driver keeps the smallest one.
+func writeFuzzViolation(prop, check, scope string, f *Failure, c any) {
+	wd := os.Getenv("VERIF_WORK")
+	if wd == "" {
+		return
+	}
+	rec := ViolationRec{Property: prop, Check: check, Scope: "gofuzz/" + scope, Signature: f.Signature, Failure: f.Msg, FoundBy: "gofuzz+rapid", Case: c}
+	b, _ := json.Marshal(rec)
+	_ = os.WriteFile(filepath.Join(wd, fmt.Sprintf("fuzzviol.%s.%d.json", prop, len(b))), b, 0o644)
+}
+
+// CheckProp runs one rapid property: draw produces a case, oracle judges it.
+func CheckProp[C any](t *testing.T, prop, check, scope string, draw func(rt *rapid.T) *C, oracle func(*C) *Failure) {
+	t.Helper()
+	rapid.Check(t, MkProp(prop, check, scope, draw, oracle).Run)
+}
+
+// RunProps runs each property as a sub-test under rapid.Check.
+func RunProps(t *testing.T, props []RProp) {
+	for _, p := range props {
+		p := p
+		t.Run(p.Scope, func(t *testing.T) { rapid.Check(t, p.Run) })
+	}
 }
 
 // Direct judges one enumerated (non-rapid) case.
